@@ -234,8 +234,14 @@ def build(inst):
                 setattr(b.objs[n], name, c)
             b.names[n] = attrs
         elif k == 'exc':
-            b.objs[n].args = tuple(ch)
-            b.names[n] = [str(i) for i in range(len(ch))]
+            # an application exception: what it was raised with (args) and the attributes it carries (a code, the
+            # offending record) - both are shown, the arguments first
+            na = (len(ch) + 1) // 2
+            b.objs[n].args = tuple(ch[:na])
+            attrs = ['detail%d' % i for i in range(len(ch) - na)]
+            for name, c in zip(attrs, ch[na:]):
+                setattr(b.objs[n], name, c)
+            b.names[n] = [str(i) for i in range(na)] + attrs
         else:
             b.names[n] = []
     ids = {}
